@@ -26,6 +26,7 @@ ALPHABET = {
     "U1": lambda: B.DiameterAVP(code=60001, data=b"x"),                       # unknown codes: same name 'unknown'
     "U2": lambda: B.DiameterAVP(code=60002, data=b"yy"),
     "P": lambda: ProxyStateAVP(b"abc"),                                       # needs padding
+    "B": lambda: B.DiameterAVP(code=101, data=b"\x00\x00\x00\x01"),           # dictionary name with a BLANK in it
 }
 
 
@@ -97,6 +98,13 @@ def ops_for(m, expected, pool):
             return exp
         if "renamed_avp" not in m.__dict__:
             out.append(("update_key(%s)" % ks[0], do_rename))
+        # a caller-chosen key that merely CONTAINS the '_avp' marker (the library's own convention for "is a
+        # named AVP": '"_avp" in key'), e.g. '<name>_avp_primary'
+        def do_rename2(m, exp, k=ks[-1]):
+            m.update_key(k, k + "_primary")
+            return exp
+        if not ks[-1].endswith("_primary"):
+            out.append(("update_key(%s,+_primary)" % ks[-1], do_rename2))
     return out
 
 
@@ -197,7 +205,7 @@ def name_map_coherence():
     return [("coherent-after-every-operation-sequence", not failures, detail)]
 
 
-name_map_coherence.bounded = ("operation sequences of length <= 3 (quick) / 4 (thorough) over a 7-AVP alphabet, "
+name_map_coherence.bounded = ("operation sequences of length <= 3 (quick) / 4 (thorough) over an 8-AVP alphabet, "
                               "on the real classes (native run-time evaluation of the representation invariant)")
 
 
